@@ -262,6 +262,14 @@ pub fn stats(v: &View) -> RunStats {
 
 pub fn c01(v: &View) -> Vec<Violation> {
     let mut out = vec![];
+    // a panic on the data path (in the library or while the harness looks at what a read
+    // returned) ends delivery for good
+    if let Some(p) = &v.out.panic {
+        if !(p.contains("Runtime stalled") || p.contains("runtime stalled")) {
+            let first = p.lines().next().unwrap_or("").to_string();
+            out.push(viol("C01", "c01.panic", format!("panic:{}", first.chars().take(80).collect::<String>()), format!("simulation ended by panic: {}", p.chars().take(1500).collect::<String>())));
+        }
+    }
     let app = &v.out.app;
     for (key, r) in &app.recvs {
         if let Some((off, what)) = &r.mismatch {
